@@ -607,6 +607,17 @@ class Graph:
                 else:
                     f.calls.add(q)
             return
+        # a function DEFINED inside this function (and never rebound in it): its body is walked as part of `f`, so its calls
+        # and effects are already attributed to `f`
+        nested = {n.name for n in ast.walk(f.node) if isinstance(n, (ast.FunctionDef, ast.AsyncFunctionDef)) and n is not f.node}
+        if name in nested:
+            rebound = any(isinstance(n, ast.Name) and n.id == name and isinstance(n.ctx, (ast.Store, ast.Del))
+                          for n in ast.walk(f.node)) or \
+                any(isinstance(n, ast.arg) and n.arg == name for n in ast.walk(f.node)) or \
+                sum(1 for n in ast.walk(f.node) if isinstance(n, (ast.FunctionDef, ast.AsyncFunctionDef, ast.ClassDef))
+                    and n is not f.node and n.name == name) != 1
+            if not rebound:
+                return
         # unknown local callable: every package class may be constructed
         for cq in self.classes:
             self.call_class(f, cq)
